@@ -73,6 +73,15 @@ func (p *bpeer) clientWrote(c *memConn, b []byte) error {
 	return nil
 }
 
+func (p *bpeer) clientWroteOnClosed(c *memConn, b []byte) {
+	p.mu.Lock()
+	defer p.mu.Unlock()
+	if pk, _, err := refDecodeOne(b); err == nil {
+		p.log.add(c.id, "WRITE-FAIL", &pk, "written on a closed transport")
+		p.emitted = append(p.emitted, pk)
+	}
+}
+
 func (p *bpeer) clientClosed(c *memConn) {
 	p.mu.Lock()
 	p.localClosed = true
